@@ -259,8 +259,13 @@ class Gen:
                    "    public function get() -> T {\n        return this.item;\n    }\n}")
         for cls in ("A", "B"):
             out.append("class %s%s {" % (cls, " extends A" if cls == "B" else ""))
+            # later field initialisers name earlier (and, in B, inherited) fields by bare name: an initialiser is
+            # not inside the constructor, so a constructor parameter that carries a field's name must not
+            # capture it (the ctor-param-as-member renamings below exercise exactly that)
+            inits = ({"count": "5", "total": "count + 5", "size": "total + count + 4"} if cls == "A"
+                     else {"level": "5", "extra": "level + size + count + total"})
             for f in (FIELDS_A if cls == "A" else FIELDS_B):
-                out.append("    public int %s = %d;" % (f, len(f)))
+                out.append("    public int %s = %s;" % (f, inits[f]))
             if cls == "A":
                 for f in PRIVATE_A:
                     out.append("    private int %s = %d;" % (f, len(f)))
